@@ -105,6 +105,14 @@ fn transforms() -> Vec<(&'static str, Option<Matrix4<f32>>)> {
             "affine",
             Some(Matrix4::new_translation(&Vector3::new(0.5, -2.0, 0.25)) * Matrix4::new_nonuniform_scaling(&Vector3::new(2.0, 0.5, -4.0))),
         ),
+        // bottom row (0, 0, 0, w) with w != 1: an affine map kept with a scale in the
+        // homogeneous coordinate (all four bottom-row patterns are in the list:
+        // (0,0,0,1), (0,0,0,w), (a,b,c,w))
+        ("homogeneous scale", {
+            let mut m = Matrix4::new_translation(&Vector3::new(0.5, -2.0, 0.25)) * Matrix4::new_nonuniform_scaling(&Vector3::new(2.0, 0.5, -4.0));
+            m *= 4.0;
+            Some(m)
+        }),
         ("projective", {
             // a genuinely projective matrix: w depends on the position
             let mut m = Matrix4::new_nonuniform_scaling(&Vector3::new(2.0, 4.0, -1.0));
